@@ -168,6 +168,17 @@ def run():
                 vals = [np.ma.sum(mm), np.ma.sum(mm & (mm == 0)), np.ma.sum(mm == 0), np.mean(mm), np.nanmean(mm)]
                 return [NAN if x is np.ma.masked else float(x) for x in vals]
             cmp("masked", sym_ma, real_ma, v)
+
+            def sym_fill(a, mask=mask):
+                fm = A.ma_make(a, sa(np.array(mask, dtype=object)))
+                bm = A.ma_make(a != 0, sa(np.array(mask, dtype=object)))
+                return [list(conc(A.ma_filled(fm))), list(conc(A.ma_filled(fm, -999))), [float(x) for x in conc(A.ma_filled(bm))]]
+
+            def real_fill(a, mask=mask):
+                fm = np.ma.masked_array(np.asarray(a, dtype=float), mask=mask)
+                bm = np.ma.masked_array(np.asarray(a) != 0, mask=mask)
+                return [list(np.ma.filled(fm)), list(np.ma.filled(fm, -999)), [float(x) for x in np.ma.filled(bm)]]
+            cmp("masked-filled", sym_fill, real_fill, v)
     finally:
         core.set_current(None)
     return errors
